@@ -215,6 +215,8 @@ def assign(self: Interp, target, val, st: State):
                             break
             st.heap[base.oid][attr] = val
             return
+        if isinstance(base, Opaque) and target.attr in getattr(lib, "OPAQUE_SETATTR", {}).get(base.cls, {}):
+            return lib.OPAQUE_SETATTR[base.cls][target.attr](self, st, base, val)
         if isinstance(base, Opaque):
             # store into a field of a foreign object: recorded as an override of the uninterpreted field function
             ov = dict(st.heap.get("$opq", {}))
@@ -373,9 +375,11 @@ def x_If(self, s, st):
     s_t.assume(c)
     s_f.assume(znot(c))
     outs = []
-    if self.feasible(s_t):
+    ft = self.feasible(s_t, focus=to_z3(c))
+    if ft:
         outs += self.exec_block(s.body, s_t)
-    if self.feasible(s_f):
+    # (the state before the test is feasible: if the true branch is not, the false branch is)
+    if not ft or self.feasible(s_f, focus=to_z3(znot(c))):
         outs += self.exec_block(s.orelse, s_f)
     return outs
 
